@@ -84,11 +84,11 @@ def get_units():
         # the same gate with every loop of processIncomingPacket CUT at the trivial invariant: each iteration starts from a havoc'd
         # buffer/header (sound for any loop structure; counter-models live in havoc'd state and cannot be replayed - a failure is
         # reported against the baseline as no-failing-input-found)
-        us.append(Unit('%s/gate.cut.%s' % (PROP, kind), gate(kind), [PROP], contracts=CS, loops=F.loop_anns(kind),
+        us.append(Unit('%s/gate.cut.%s' % (PROP, kind), gate(kind), [PROP], contracts=CS, loops=F.loop_anns(kind), twin=F.gate_twin(kind),
                        functions=[F.QUAL[kind] + '.processIncomingPacket']))
-        # the receive loop is entered from an arbitrary (buffer, header): its first iteration *is* the arbitrary iteration
-        # (type invariant of the loop-head state: a byte string and a header over the framer's fixed key set); later
-        # iterations of the same call start from states of the same class and are cut
-        us.append(Unit('%s/gate.%s' % (PROP, kind), gate(kind), [PROP], contracts=CS, unroll={(F.QUAL[kind] + '.processIncomingPacket', 0): 1},
-                       functions=[F.QUAL[kind] + '.' + m for m in ('processIncomingPacket', 'checkFrame', 'getFrame', 'advanceFrame', 'isFrameReady')]))
+        # bounded companion: the first iteration only, from an arbitrary (buffer, header).  Its counter-models are over the inputs and
+        # replay on the real code, which those of the cut unit cannot; it proves nothing about later iterations (a loop entered behind
+        # a guard does not re-establish the guard), so it is labelled bounded and never counted as proved
+        us.append(Unit('%s/gate.%s' % (PROP, kind), gate(kind), [PROP], contracts=CS, unroll={(F.QUAL[kind] + '.processIncomingPacket', 0): 1}, twin=F.gate_twin(kind),
+                       functions=[F.QUAL[kind] + '.' + m for m in ('processIncomingPacket', 'checkFrame', 'getFrame', 'advanceFrame', 'isFrameReady')], bounded=True))
     return us
